@@ -155,7 +155,7 @@ PROPS = {
     },
     "C10": {
         "pkg": "hserver", "test": "TestC10", "level": "exploration",
-        "quick": T(16, 100, timeout=900, fixed=["TestC10_UserRoleFlagRace", "TestC10_ExcludedByAnotherWildcard"]), "thorough": T(16, 2500, timeout=7000, fixed=["TestC10_UserRoleFlagRace", "TestC10_ExcludedByAnotherWildcard"]),
+        "quick": T(16, 100, timeout=900, fixed=["TestC10_UserRoleFlagRace", "TestC10_ExcludedByAnotherWildcard"]), "thorough": T(16, 1000, timeout=7000, fixed=["TestC10_UserRoleFlagRace", "TestC10_ExcludedByAnotherWildcard"]),
         "rule": "regressions: TestC10_UserRoleFlagRace (deterministic schedule of two overlapping create requests), TestC10_ExcludedByAnotherWildcard (the sequential history behind fix 2). rapid state machine over the REAL HTTP handler + MetaCDC (real etcd meta store, fake downstream Milvus gRPC servers, 2 targets, task limit 4): create with specification db in {default (implicit or explicit), db1, db2, *} x collection in {c1, c2, *}, "
                 "optional name mapping (valid or not covered by the specification), enable_user_role, create with one transient store failure injected at a drawn store call (task list read, task record write, state update, checkpoint read = a failed create after the bookkeeping was updated), delete, restart (new incarnation + ReloadTask). "
                 "After every step: per target every (database, collection) of a 4x3 universe is selected by at most one task on the data path (GetShouldReadFunc) and on the DDL path (GetCollectionInfos+MatchCollection), both paths agree, a new task selects everything of its specification no other task names and nothing another task selects, "
